@@ -8,6 +8,7 @@ import (
 	"fmt"
 	badgerstore "github.com/vipnode/vipnode/v2/pool/store/badger"
 	"os"
+	"path/filepath"
 	"runtime"
 	"sort"
 	"strconv"
@@ -126,8 +127,23 @@ func Main(t *testing.T) {
 		// what a migration does with a saved nonce depends on its age.
 		mb, _ := strconv.Atoi(*fTier)
 		go func() {
-			// (real time, outside the bubble: an Open that never returns must not hang the run that asked)
-			time.Sleep(90 * time.Second)
+			// (real time, outside the bubble: an Open that never returns must not hang the run that asked - nor fill
+			// the machine's memory, which is where the directory lives)
+			for i := 0; i < 45; i++ {
+				time.Sleep(2 * time.Second)
+				var n int64
+				filepath.Walk(*fTrace, func(_ string, fi os.FileInfo, err error) error {
+					if err == nil && !fi.IsDir() {
+						n += fi.Size()
+					}
+					return nil
+				})
+				if n > 4<<30 {
+					fmt.Printf("OPEN-ERR: Open has not returned and has written %d MB so far (it is still running)\n", n>>20)
+					os.RemoveAll(*fTrace)
+					os.Exit(0)
+				}
+			}
 			fmt.Println("OPEN-ERR: Open has not returned after 90 seconds of real time (it is still running)")
 			os.Exit(0)
 		}()
@@ -222,10 +238,38 @@ func spinning(stacks string) string {
 	return ""
 }
 
+// scratchBytes is what this worker's recent scratch directories (memory, under /dev/shm) hold.
+func scratchBytes() int64 {
+	var n int64
+	for _, root := range seams.RecentScratchDirs() {
+		filepath.Walk(root, func(_ string, fi os.FileInfo, err error) error {
+			if err == nil && !fi.IsDir() {
+				n += fi.Size()
+			}
+			return nil
+		})
+	}
+	return n
+}
+
 func watchdog() {
 	last, lastT := kernel.Heartbeat(), time.Now()
 	for {
 		time.Sleep(5 * time.Second)
+		if n := scratchBytes(); n > 6<<30 {
+			// a loop that writes: it would take the machine's memory with it long before the scheduler is missed
+			buf := make([]byte, 4<<20)
+			st := string(buf[:runtime.Stack(buf, true)])
+			if fn := spinning(st); fn != "" {
+				fmt.Fprintf(os.Stderr, "LIVELOCK: %s has been running for minutes without waiting for anything: a loop in the code under test that does not end (it has written %d MB so far)\n%s\n", fn, n>>20, st)
+			} else {
+				fmt.Fprintf(os.Stderr, "WATCHDOG: the run has written %d MB of scratch data\n%s\n", n>>20, st)
+			}
+			for _, d := range seams.RecentScratchDirs() {
+				os.RemoveAll(d)
+			}
+			os.Exit(2)
+		}
 		h := kernel.Heartbeat()
 		if h != last {
 			last, lastT = h, time.Now()
